@@ -339,6 +339,38 @@ def classify_ghost(ann, pin):
             j = st.pop(); partner[i] = j; partner[j] = i
     if st: raise WeaveError('overlay: unbalanced %r at line %d' % (ann[st[-1]].t, ann[st[-1]].line))
     n = len(ann); P = len(pin)
+    # first choice: longest-common-block alignment (keeps ghost statements whole: a ghost `res.events@` is not
+    # mistaken for the `res` of the following real statement); accepted only if it is a complete embedding of pin
+    # whose bracket pairs are class-consistent; otherwise the exact search below decides
+    sm = difflib.SequenceMatcher(None, [t.t for t in pin], [t.t for t in ann], autojunk=False)
+    cls0 = ['g'] * n; covered = 0; ok = True; lastb = -1
+    for a0, b0, sz in sm.get_matching_blocks():
+        for d in range(sz): cls0[b0 + d] = 'c'
+        covered += sz
+    if covered == P and [t.t for k, t in enumerate(ann) if cls0[k] == 'c'] == [t.t for t in pin]:
+        for i2, j2 in partner.items():
+            if cls0[i2] != cls0[j2]: ok = False; break
+        if ok:
+            for k, t in enumerate(ann): t.ghost = (cls0[k] == 'g')
+            return ann
+    # statement-level ghost code is recognisable syntactically and is never executable: `proof { .. }`, `let ghost .. ;`,
+    # `broadcast use .. ;`, `hide(..);`  -- force these runs to be ghost so that the search cannot split them
+    forced = [False] * n
+    k = 0
+    while k < n:
+        t = ann[k].t
+        if t == 'proof' and k + 1 < n and ann[k + 1].t == '{':
+            e = partner[k + 1]
+            for q in range(k, e + 1): forced[q] = True
+            k = e + 1; continue
+        if (t == 'let' and k + 1 < n and ann[k + 1].t == 'ghost') or (t == 'broadcast' and k + 1 < n and ann[k + 1].t == 'use') or (t in ('hide', 'reveal') and k + 1 < n and ann[k + 1].t == '('):
+            q = k
+            while q < n and ann[q].t != ';':
+                q = partner[q] if ann[q].t in OPEN else q
+                q += 1
+            for r in range(k, min(q, n - 1) + 1): forced[r] = True
+            k = q + 1; continue
+        k += 1
     cls = [None] * n
     sys.setrecursionlimit(max(10000, n * 4))
     # iterative greedy with limited backtracking on opening brackets / plain tokens
@@ -382,6 +414,8 @@ def classify_ghost(ann, pin):
                         raise WeaveError('overlay does not erase to the extracted source near overlay line %d (closing %r)' % (ann[i].line, t))
                 continue
             cls[i] = 'g'; i += 1; continue
+        if forced[i]:
+            cls[i] = 'g'; i += 1; continue
         if p < P and pin[p].t == t:
             choices.append((i, p))
             cls[i] = 'c'; p += 1; i += 1
@@ -414,24 +448,34 @@ def weave(ann, pin, cur):
         return out, 0
     sm = difflib.SequenceMatcher(None, a, b, autojunk=False)
     out = []; changed = 0
+    emitted = set()
+    def ghost(i):
+        if i in emitted: return []
+        emitted.add(i); return ghost_before[i]
+    STMT_GHOST = ('proof', 'let', 'assert', 'broadcast', 'hide', 'reveal', 'assume')
     for tag, i1, i2, j1, j2 in sm.get_opcodes():
         if tag == 'equal':
             for d in range(i2 - i1):
-                out.extend(ghost_before[i1 + d])
+                out.extend(ghost(i1 + d))
                 at = ann[code_idx[i1 + d]]
                 ct = cur[j1 + d]
                 out.append(Tok(ct.t, at.tr, ct.line))
         elif tag == 'insert':
             changed += j2 - j1
+            g = ghost_before[i1]
+            # statement-level ghost code (snapshots, proof blocks) that precedes the next statement stays in front of
+            # inserted code (which typically wraps or precedes that statement); clause-level ghost text (invariant ..,
+            # requires .., `it:`) stays attached to the header token that follows it, i.e. behind inserted tokens
+            if g and g[0].t in STMT_GHOST:
+                out.extend(ghost(i1))
             out.extend(cur[j1:j2])
-            # the ghost run that precedes pin[i1] follows in the next opcode
         else:  # replace / delete
             changed += max(i2 - i1, j2 - j1)
-            out.extend(ghost_before[i1])
+            out.extend(ghost(i1))
             out.extend(cur[j1:j2])
             for d in range(i1 + 1, i2):
-                out.extend(ghost_before[d])
-    out.extend(ghost_before[P])
+                out.extend(ghost(d))
+    out.extend(ghost(P))
     return out, changed
 
 
